@@ -5,6 +5,8 @@
 pub mod coq;
 pub mod rng;
 pub mod fixtures;
+pub mod hist;
+pub mod crashfs;
 pub mod walcodec;
 
 pub use rng::Rng;
